@@ -14,7 +14,7 @@ func Checks() map[string]*simcore.Check {
 func check06() *simcore.Check {
 	return &simcore.Check{
 		ID: "C06", Engine: "triesim", Level: "exploration",
-		Rule: "plans = a key pool (1-3 byte keys over 4 symbols incl. keys that are prefixes of others / 2-byte keys over all 16 first nibbles / fixed 3-byte keys / 32-byte keys with long shared prefixes), 3-7 values (tiny to 70 bytes) and 10-80 operations (Update, empty-value Update, Delete, UpdateBatch of 1-96 entries incl. whole-first-nibble wipes, fan-out over all nibbles, all-but-one deletions and repeated keys, Prefetch, Hash, Get, full iteration, Trie.Copy modified and dropped, Commit + triedb.Update [+ flush to the simulated disk] [+ cold restart] + reopen) on a real trie over real hashdb/pathdb over SimKV; in gated plans every node read of the goroutines of UpdateBatch/Prefetch parks at a gate and the tape picks who reads next. Non-trivial = the scheduler had a real choice (>=2 parked readers) at >=2 steps, or the injected missing-node fault fired. Distinct = distinct (released-gate sequence, operation/root log) fingerprints.",
+		Rule: "plans = a key pool (1-3 byte keys over 4 symbols incl. keys that are prefixes of others / 2-byte keys over all 16 first nibbles / fixed 3-byte keys / 32-byte keys with long shared prefixes), 3-7 values (1-4, 20-31, 32-70 or 301-600 bytes; StackTrie is fed like types.DeriveSha does, through one reused and immediately overwritten key/value buffer) and 10-80 operations (Update, empty-value Update, Delete, UpdateBatch of 1-96 entries incl. whole-first-nibble wipes, fan-out over all nibbles, all-but-one deletions and repeated keys, Prefetch, Hash, Get, full iteration, Trie.Copy modified and dropped, Commit + triedb.Update [+ flush to the simulated disk] [+ cold restart] + reopen) on a real trie over real hashdb/pathdb over SimKV; in gated plans every node read of the goroutines of UpdateBatch/Prefetch parks at a gate and the tape picks who reads next. Non-trivial = the scheduler had a real choice (>=2 parked readers) at >=2 steps, or the injected missing-node fault fired. Distinct = distinct (released-gate sequence, operation/root log) fingerprints.",
 		Assumptions: []string{
 			"interleavings of UpdateBatch goroutines between two node reads (shared opTracer/prevalueTracer maps, both mutex protected) are not decided; perturbed by GOMAXPROCS only",
 			"hasher/committer parallelism (>=100 unhashed / >100 uncommitted updates) has no seam and is perturbed only",
